@@ -372,10 +372,8 @@ def recheck(r):
         kind, res = common.forked(lambda: (select_one(log, r['problem'], [r['opts'], r['opts']]), log.violations)[1], timeout=600)
         if kind != 'ok':
             return None
-        for what, _, tags in res:
-            if not tags:
-                return what
-        return None
+        log.violations = res
+        return log.first('C17')
     if k == 'filter':
         import sageopt.relaxations.sig_solution_recovery as ssr
         c = r['case']
